@@ -24,6 +24,7 @@ void run_C04(vh::Ctx& c) {
     bool scal_manu = mask & OSCAL;
     Params P;
     P.generate(r, nx, d, nr, ns, ti, fam, scal_manu, /*constant_rates=*/false, /*rate=*/r.uni(0.5, 2.0));
+    if (fam == MANUFACTURED && r.coin(0.5)) { P.kappa = r.uni(0.3, 1.5) * r.sign(); c.count("state_dependent_sources"); }
     double T = r.uni(0.3, 1.5);
     int nseg = 1 + r.pick(2);
     double tolexp = sm.order == 2 ? r.uni(7.0, 8.5) : r.uni(8.0, 11.0);
